@@ -110,17 +110,29 @@ fn go<'a, T: IteTable<'a, BddPtr<'a>> + Default>(
 impl SubCheckT for Hist {
     type Case = Case;
     const NAME: &'static str = "history";
-    const RULE: &'static str = "random builder configuration (n0<=6 initial variables, random order permutation, AllIteTable / LruIteTable default / LruIteTable with 1..16 slots, unique table default or 1..64 slots) and <=60 (thorough: <=100) operations over a growing pool; every result's truth table (read by walking var/low/high) is compared with the oracle, and the whole pool is re-read at 3 checkpoints and at the end. Non-trivial: >=3 results that are non-constant, depend on >=2 variables and come from a binary/ternary/cofactor-style op with at least one non-literal argument; distinct = distinct (configuration, history)";
+    const RULE: &'static str = "random builder configuration (n0<=6 initial variables, occasionally none, up to 8 in total through new_var, random order permutation, AllIteTable / LruIteTable default / LruIteTable with 1..16 or 32..256 slots, unique table default or 1..64 slots) and <=60 (thorough: <=100) operations over a growing pool; every result's truth table (read by walking var/low/high) is compared with the oracle, and the whole pool is re-read at 3 checkpoints and at the end. Non-trivial: >=3 results that are non-constant, depend on >=2 variables and come from a binary/ternary/cofactor-style op with at least one non-literal argument; distinct = distinct (configuration, history)";
     fn cases(tier: Tier) -> u32 {
         tier.pick(20_000, 200_000)
     }
     fn strategy(tier: Tier) -> BoxedStrategy<Case> {
         (
             cfg_strategy(6),
+            // now and then: a builder that starts without any variable (all variables added at run time), and
+            // lossy caches of 32..256 slots, which grow several times within one history
+            prop_oneof![30 => Just(None), 1 => Just(Some(0u8))],
+            prop_oneof![8 => Just(None), 1 => (7u8..=10).prop_map(Some)],
             ops_strategy(tier.pick(60, 100)),
             proptest::collection::vec(any::<u16>(), 3),
         )
-            .prop_map(|(cfg, ops, checkpoints)| Case { cfg, ops, checkpoints })
+            .prop_map(|(mut cfg, n0, cache, ops, checkpoints)| {
+                if let Some(z) = n0 {
+                    cfg.n0 = z;
+                }
+                if let Some(c) = cache {
+                    cfg.cache = c;
+                }
+                Case { cfg, ops, checkpoints }
+            })
             .boxed()
     }
     fn run(case: &Case, st: &mut Stats) -> CaseResult {
